@@ -54,3 +54,10 @@ package verifspec
 //@   loop 1 invariant chan.$closed
 //@   loop 2 invariant chan.$closed
 //@   ensures chan.$closed
+
+// The map key of an interface value: a dynamic type that is not comparable (a slice, a map, a function, or a struct or
+// array containing one) cannot be hashed -- a run-time panic of the Go specification ("hash of unhashable type").
+//@ js types.js $ifaceKeyFor
+//@ property C08
+//@   param x: iface
+//@   throws_if !x.$nil && !x.constructor.comparable
